@@ -283,6 +283,22 @@ def rule_enc_switch(ctx):
     r.floor(9)
 
 
+def rule_one_encoder(ctx):
+    """the tables rule decides encode_utf8/decode_utf8; it is worth something only if the output path uses that encoder"""
+    db = ctx.db
+    r = ctx.rule("one-encoder", "write_utf8() obtains every byte it writes from encode_utf8(): it calls it once, passes only elements of the "
+                 "vector it filled to write_byte(), and does no bit arithmetic of its own")
+    w = db.fn("write_utf8", file=UNI)
+    enc = db.calls_in(w, "encode_utf8")
+    r.check(len(enc) == 1, "write_utf8/calls-encode_utf8", db.loc(w, w.l0), "write_utf8 calls encode_utf8 %d times: a second, private encoder is not "
+            "covered by the table agreement with decode_utf8 (values the decoder accepts may be written differently)" % len(enc))
+    arith = [n for n in w.all_nodes() if n["k"] == "bin" and n.get("op") in ("|", ">>", "<<", "&")]
+    r.check(not arith, "write_utf8/no-private-arithmetic", db.loc(w, arith[0] if arith else w.l0), "write_utf8 assembles bytes itself: `%s`" % (expr_str(w, arith[0]["i"]) if arith else ""))
+    wb = db.calls_in(w, "write_byte")
+    r.check(len(wb) >= 1, "write_utf8/writes", db.loc(w, w.l0), "write_utf8 does not call write_byte")
+    r.floor(3)
+
+
 def rule_enc_flow(ctx):
     db = ctx.db
     r = ctx.rule("enc-flow", "cpd.enc/cpd.bom are assigned only in uncrustify_file (from fm.enc/fm.bom and the utf8_* options); write_bom is "
@@ -341,4 +357,4 @@ def rule_enc_flow(ctx):
     r.floor(12)
 
 
-RULES = [rule_utf8_tables, rule_utf16_tables, rule_enc_switch, rule_enc_flow]
+RULES = [rule_utf8_tables, rule_utf16_tables, rule_enc_switch, rule_enc_flow, rule_one_encoder]
